@@ -89,7 +89,10 @@ def it_fma(c):
 def it_gfma(c):
     pairs = [(I(wa, 'm%da' % i), I(wb, 'm%db' % i)) for i, (wa, wb) in enumerate(c['pairs'])]
     adds = [I(w, 'c%d' % i) for i, w in enumerate(c['adds'])]
-    r = multipliers.generalized_fma(pairs, adds, reducer=REDUCERS[c['red']])
+    # the documented way to say "no products" / "nothing else to add" is None (an empty list works too)
+    none = c.get('none')
+    r = multipliers.generalized_fma(pairs if (pairs or not none) else None, adds if (adds or not none) else None,
+                                    reducer=REDUCERS[c['red']])
 
     def orc(ins):
         s = 0
@@ -140,6 +143,8 @@ def cases(tier, seed):
                         ([(2, 2)], []), ([(1, 1)] * 4, [])):
         for red in REDUCERS:
             out.append({'item': 'gfma', 'pairs': [list(p) for p in pairs], 'adds': adds, 'red': red})
+            if not pairs or not adds:
+                out.append({'item': 'gfma', 'pairs': [list(p) for p in pairs], 'adds': adds, 'red': red, 'none': True})
     # every small group shape (one operand, all-1-bit operands, ...): the reducers' corner cases
     for k in range(1, 5 if tier == 'quick' else 7):
         for ws in itertools.combinations_with_replacement((1, 2, 3) if tier == 'quick' else (1, 2, 3, 5), k):
